@@ -14,6 +14,7 @@ import (
 	"hash/fnv"
 	"math"
 	"math/rand"
+	"os"
 	"strconv"
 	"strings"
 
@@ -37,6 +38,9 @@ type c04Case struct {
 	N     int      `json:"n,omitempty"`    // number of boolean values
 	// Enc = "foreign": a conforming stream that Go's encoders did not write
 	Foreign *foreignCase `json:"foreign,omitempty"`
+	// Enc = "dict-life" / "dict-file": dictionary scenarios (dict.go)
+	Life *dictLifeCase `json:"life,omitempty"`
+	File *dictFileCase `json:"file,omitempty"`
 }
 
 var dirty = func() []byte {
@@ -148,6 +152,18 @@ func check(c *core.Ctx, cs *c04Case) bool {
 		k.cutRng = rand.New(rand.NewSource(int64(len(cs.Foreign.Runs))*31 + int64(cs.Foreign.Width)))
 		if p := safely(func() { k.checkForeign(cs.Foreign) }); p != "" {
 			k.viol("panic", "harness panicked on a foreign stream: "+p)
+		}
+		return k.ok
+	}
+	switch cs.Enc {
+	case "dict-life":
+		if cs.Life != nil {
+			k.checkLifeCase(cs.Life)
+		}
+		return k.ok
+	case "dict-file":
+		if cs.File != nil {
+			k.checkFileCase(cs.File)
 		}
 		return k.ok
 	}
@@ -780,6 +796,11 @@ func genStrs(rng *rand.Rand, n, kind, fixed int) []string {
 
 func run(c *core.Ctx) {
 	dictBulk(c)
+	dictLife(c)
+	dictFile(c)
+	if os.Getenv("C04_ONLY") == "dict" { // development aid: only the dictionary scenarios
+		return
+	}
 	c.Res.Rule = "per (encoding, type): sequences from length buckets {0,1,2,3,7,8,9,15..17,31..33,63..65,127..130,255..258,1000,1025} x value patterns (constant, ramp, extremes, alternating, random full range, small runs; levels: constant, long runs, width-filling, group patterns; byte strings: shared prefixes, empty/long, identical, small alphabet), all RLE bit widths 0..8 (levels) and 0..32 (int32), an exhaustive sweep of all sequences of length <= 4 over {min,-1,0,1,max} for the delta encodings; destination buffers nil / dirty / oversized / reused. Checked per case: Go bytes == model bytes, Go decode(Go bytes) == input, specification decoder(Go bytes) == input. Non-trivial = at least 2 values; distinct by the JSON of the case."
 	rng := c.Rng
 	fuzzEvery = uint32(c.N(10, 1))
